@@ -245,6 +245,8 @@ def check_gv(attrs, snap, q, r, fail):
     if "err" in r:
         return fail("gv-error", r, "get_variants returns a list", dict(facts, types_has_self="self" in types, container_is_top=c is None))
     res = r["ok"]
+    if any(i < 0 for i in res):
+        return fail("gv-foreign-object", res, "get_variants returns variants of the forest", dict(facts, types_has_self="self" in types, container_is_top=c is None))
     uids = [attrs[i]["uid"] for i in res]
     if uids != sorted(uids):
         return fail("gv-unsorted", uids, "ordered by UID", facts)
